@@ -281,21 +281,26 @@ bool Instance::eval(const size_t argc, char* const* argv) {
     // without 0x, inline expressions, [sub-scripts] - which may be spread over several arguments and be followed by
     // another token without a separator) and pushed in the same - minimal - form, so that `exec` runs the operations
     // the script compiler would have produced for them
-    std::vector<const char*> tokens;
+    // (the arguments are joined again and read like the body of a sub-script: the reader knows that a bracket inside a token
+    // - sha256([OP_1 OP_2]) - keeps it together, and takes tabs for separators too)
+    std::string text;
     int depth = 0;
     for (size_t i = 0; i < argc; i++) {
         // empty strings are ignored
         if (!argv[i][0]) continue;
-        tokens.push_back(argv[i]);
-        for (const char* c = argv[i]; *c; ++c) depth += (*c == '[') - (*c == ']');
+        if (!text.empty()) text += " ";
+        text += argv[i];
+        for (const char* c = argv[i]; *c && depth >= 0; ++c) depth += (*c == '[') - (*c == ']');
+        if (depth < 0) break;
     }
     if (depth != 0) {
         // (refused here: the script reader ends the process on an unclosed bracket)
         fprintf(stderr, "error: invalid argument: unbalanced [brackets]\n");
         return false;
     }
+    if (text.empty()) return true;
     try {
-        for (const Value& val : Value::parse_args(tokens)) {
+        for (const Value& val : Value::parse_args(text.c_str(), text.length())) {
             if (val.type == Value::T_STRING) {
                 fprintf(stderr, "error: invalid opcode %s\n", val.str.c_str());
                 return false;
